@@ -4,18 +4,20 @@ import json
 from pathlib import Path
 V = Path(__file__).resolve().parent.parent
 
-CHECKS = {
- "C04": dict(
-   text="Lean 4 theorems over the model of heap-inl.h (BFS-array heap: insert/remove keep heap order and the multiset, "
-        "root is minimal, for every shape/index) and of timer.c (saturating clamp, due_in, pass semantics); the model is tied "
-        "to the working tree by running model and implementation on the same op sequences (heap unit harness with BFS dump "
-        "after every op; real library on a virtual clock) and diffing every line, plus monitors that evaluate the property "
-        "text directly on the implementation.",
-   note="Trusted: Lean kernel (axioms propext, Classical.choice, Quot.sound), pointer-tree = BFS-array abstraction "
-        "(validated by dump equality), virtual clock interposition, clang/ASan. CLOCK_MONOTONIC monotonicity is assumed. "
-        "timer_counter wrap after 2^64 starts not modelled.",
-   design="DESIGN.md §3 C04"),
-}
+import ast, re
+
+def load_checks():
+    """each checks/cNN.py carries a literal `MANIFEST = dict(text=..., note=..., design=..., [technique=...])`"""
+    out = {}
+    for p in sorted((V / "checks").glob("c[0-9][0-9].py")):
+        tree = ast.parse(p.read_text())
+        for node in tree.body:
+            if isinstance(node, ast.Assign) and getattr(node.targets[0], "id", None) == "MANIFEST":
+                d = ast.literal_eval(node.value)
+                out[p.stem.upper()] = d
+    return out
+
+CHECKS = load_checks()
 
 def main():
     checks = []
@@ -38,7 +40,7 @@ def main():
         "version": 1,
         "setup_cmd": "cd /verif/lean && lake build UvModel uvdriver",
         "hooks": {"guard": "UV_VERIF", "enable": "checks compile /repo/src with -DUV_VERIF (tools/vlib.py build_libuv); no hook is currently needed",
-                  "baseline_off_cmd": "cmake --build /repo/_build && ctest --test-dir /repo/_build -j8 --timeout 900",
+                  "baseline_off_cmd": "/verif/tools/run_baseline.sh",
                   "source_commits": [], "add_only": True},
         "engines": [{"name": "lean4+correspondence", "path": "/verif/tools/check.py",
                      "serves_properties": sorted(claimed),
@@ -48,8 +50,12 @@ def main():
         "notes": "See DESIGN.md. Evidence files are rewritten on every run by tools/vlib.py.",
     }
     (V / "MANIFEST.json").write_text(json.dumps(m, indent=1) + "\n")
-    import jsonschema
-    jsonschema.validate(m, json.load(open("/root/.vp/MANIFEST.schema.json")))
+    try:
+        import jsonschema
+        jsonschema.validate(m, json.load(open("/root/.vp/MANIFEST.schema.json")))
+    except ImportError:
+        import subprocess
+        subprocess.run(["python3-vt", "-c", "import json,jsonschema;jsonschema.validate(json.load(open('%s')),json.load(open('/root/.vp/MANIFEST.schema.json')))" % (V / "MANIFEST.json")], check=True)
     print("MANIFEST.json written:", len(checks), "checks")
 
 if __name__ == "__main__":
